@@ -1441,6 +1441,16 @@ func (s *TxStore) RemoveRelevantTx(tx mwdb.DBTransaction, addrmgr *keystore.Addr
 			return nil, false, err
 		}
 		if removable {
+			// a credit or a debit of this transaction that a later step will delete is still
+			// there: Rollback finds them through this record (a reorganisation between two steps
+			// would otherwise leave them behind); the record is looked at again when they go
+			inUse, err := s.utxoStore.hasCreditOrDebitOfTx(tx, item.Key)
+			if err != nil {
+				return nil, false, err
+			}
+			removable = !inUse
+		}
+		if removable {
 			err = nsTxRecords.Delete(item.Key)
 			if err != nil {
 				return nil, false, err
